@@ -64,7 +64,14 @@ def _is_simple(vertices):
     Bentley-Ottmann algorithm to check for intersections between the line
     segments.
     """
-    return len(poly_point_isect.isect_polygon(vertices)) == 0
+    try:
+        return len(poly_point_isect.isect_polygon(vertices)) == 0
+    except AssertionError:
+        # The sweep line's internal consistency checks can trip on degenerate event
+        # orders (typically for self-intersecting input); fall back to the
+        # exhaustive pairwise test shipped with the same module.
+        points = [tuple(float(x) for x in v[:2]) for v in vertices]
+        return len(poly_point_isect.isect_polygon__naive(points)) == 0
 
 
 class Polygon(Shape2D):
